@@ -172,8 +172,13 @@ void VM<FO>::do_bt_log(int tid, int opi, Op const& op)
   Lg* lg = s->lg;
   int64_t const id = static_cast<int64_t>(tid) * 1000000 + opi;
   std::string pl = payload(static_cast<uint64_t>(op.v[3]), static_cast<size_t>(op.v[4]));
+  if (op.v[5] & FB_SINK_THROW_MASK)
+  {
+    fault_bits[id] = op.v[5] & FB_SINK_THROW_MASK; // the sink throws when this statement is replayed
+  }
   Ev& inv = record(EV_LOG_INVOKE, id, op.v[0], 9, 1);
   inv.s = fmtquill::format("#{}# bt {}", id, pl);
+  inv.s2 = "0," + std::to_string(op.v[5]);
   int result = -1;
   QUILL_TRY
   {
